@@ -291,9 +291,18 @@ static void scn_dict(int which, int vk) {
         }
         break;
     }
-    case 1: { /* Build on a fresh dict, then use */
+    case 1:   /* Build on a fresh dict, then use */
+    case 6: { /* Build on a dictionary that already holds 8 entries (rebuild) */
         varintDict *d = varintDictCreate();
         if (!d) {
+            return;
+        }
+        static uint64_t small[24];
+        for (size_t i = 0; i < 24; i++) {
+            small[i] = (i % 8) * 11 + 1;
+        }
+        if (which == 6 && varintDictBuild(d, small, 24) != 0) {
+            varintDictFree(d);
             return;
         }
         FAULT_BEGIN();
@@ -308,7 +317,27 @@ static void scn_dict(int which, int vk) {
         } else if (rc != -1) {
             FFAIL("wrong_failure_value", "Build returned %d", rc);
         } else {
-            /* still usable: a second, fault-free build must succeed */
+            /* the object must remain consistent and usable: observers first ... */
+            for (uint32_t i = 0; i < d->size && i < 64; i++) {
+                uint64_t v = varintDictLookup(d, i);
+                int32_t f = varintDictFind(d, v);
+                if (f < 0 || varintDictLookup(d, (uint32_t)f) != v) {
+                    FFAIL("inconsistent_object", "after a failed Build: Lookup(%u)=%" PRIu64 " but Find returns %d", i, v, f);
+                    break;
+                }
+            }
+            (void)varintDictFind(d, 12345);
+            /* ... then a fault-free build of an input with fewer distinct values than the capacity ... */
+            if (varintDictBuild(d, small, 24) != 0) {
+                FFAIL("inconsistent_object", "dictionary unusable after a failed Build (small rebuild fails)");
+            } else {
+                size_t w = varintDictEncodeWithDict(ENC, d, small, 24);
+                size_t r = w ? varintDictDecodeInto(ENC, w, OUT, 24) : 0;
+                if (w == 0 || r != 24 || !same_u64(OUT, small, 24)) {
+                    FFAIL("inconsistent_object", "dictionary rebuilt after a failed Build does not encode losslessly");
+                }
+            }
+            /* ... and of the original input */
             if (varintDictBuild(d, VALS, n) != 0) {
                 FFAIL("inconsistent_object", "dictionary unusable after a failed Build");
             }
@@ -653,8 +682,8 @@ static void add_sc(const char *name, int fam, int a, int b, int c) {
     NSC++;
 }
 static void build_scenarios(void) {
-    static const char *DN[6] = {"dict.Create", "dict.Build", "dict.Encode", "dict.Decode", "dict.DecodeInto", "dict.EncodedSize/GetStats"};
-    for (int w = 0; w < 6; w++) {
+    static const char *DN[7] = {"dict.Create", "dict.Build", "dict.Encode", "dict.Decode", "dict.DecodeInto", "dict.EncodedSize/GetStats", "dict.Build(rebuild)"};
+    for (int w = 0; w < 7; w++) {
         for (int vk = 0; vk < 2; vk++) {
             add_sc(DN[w], 0, w, vk, 0);
         }
